@@ -633,3 +633,58 @@ Proof.
   change (peval env ephi0) with phi in He.
   unfold auto_q. rewrite He. apply expectation_rec.
 Qed.
+
+(* ================================================================== *)
+(* 10. the edge combinations of a component do not depend on the root: a table shared by all roots
+   of a graph (used to make the reflection over all graphs cheaper; pure optimisation) *)
+Definition combos_tbl (g : graph) : list (list nat * list nat) :=
+  map (fun s => (s, combos_for g s)) (sublists (g_nodes g)).
+Definition tbl_combos (tbl : list (list nat * list nat)) (g : graph) (c : list nat) : list nat :=
+  match find (fun e => same_setb c (fst e)) tbl with Some e => snd e | None => combos_for g c end.
+Definition auto_tbl {T} (A : alg T) (tbl : list (list nat * list nat)) (g : graph) (root : nat) (phi : T) (u : nat -> T) : T :=
+  asum A (map (fun c => term_of A g root phi u c (tbl_combos tbl g c)) (enum g root)).
+
+Lemma memb_subsetb : forall a b v, subsetb a b = true -> memb v a = true -> memb v b = true.
+Proof.
+  intros a b v Hs Hv. unfold subsetb in Hs. rewrite forallb_forall in Hs.
+  unfold memb in Hv. apply existsb_exists in Hv. destruct Hv as [x [Hx Hvx]].
+  apply Nat.eqb_eq in Hvx. subst x. apply Hs, Hx.
+Qed.
+Lemma same_setb_memb : forall a b, same_setb a b = true -> forall v, memb v a = memb v b.
+Proof.
+  intros a b Hs v. unfold same_setb in Hs. apply andb_true_iff in Hs. destruct Hs as [Hab Hba].
+  destruct (memb v a) eqn:Ea, (memb v b) eqn:Eb; auto.
+  - rewrite (memb_subsetb a b v Hab Ea) in Eb. discriminate.
+  - rewrite (memb_subsetb b a v Hba Eb) in Ea. discriminate.
+Qed.
+Lemma combos_for_same_set : forall g c s, same_setb c s = true -> combos_for g c = combos_for g s.
+Proof.
+  intros g c s Hs. unfold combos_for.
+  assert (E : internal_edges (g_edges g) c = internal_edges (g_edges g) s).
+  { unfold internal_edges. apply filter_ext. intros e. unfold in_c. rewrite !(same_setb_memb c s Hs). reflexivity. }
+  rewrite E. reflexivity.
+Qed.
+Lemma tbl_combos_ok : forall g c, tbl_combos (combos_tbl g) g c = combos_for g c.
+Proof.
+  intros g c. unfold tbl_combos. destruct (find _ (combos_tbl g)) as [e|] eqn:F; [|reflexivity].
+  apply find_some in F. destruct F as [Hin Hs]. unfold combos_tbl in Hin. apply in_map_iff in Hin.
+  destruct Hin as [s [<- _]]. cbn [fst snd] in *. symmetry. apply combos_for_same_set, Hs.
+Qed.
+Lemma auto_tbl_ok : forall {T} (A : alg T) g root phi u,
+    auto_tbl A (combos_tbl g) g root phi u = auto_gen A g root phi u.
+Proof.
+  intros. unfold auto_tbl, auto_gen. f_equal. apply map_ext. intros c. rewrite tbl_combos_ok. reflexivity.
+Qed.
+
+
+Lemma in_combine_map : forall {X Y} (f : X -> Y) (l : list X) x, In x l -> In (x, f x) (combine l (map f l)).
+Proof.
+  intros X Y f. induction l as [|y l IH]; intros x Hx; [contradiction|].
+  cbn [map combine]. destruct Hx as [<-|Hx]; [left; reflexivity|right; apply IH, Hx].
+Qed.
+Lemma filter_map_length : forall {X Y} (p : Y -> bool) (f : X -> Y) l,
+    length (filter p (map f l)) = length (filter (fun x => p (f x)) l).
+Proof.
+  intros X Y p f. induction l as [|x l IH]; [reflexivity|]. cbn [map filter].
+  destruct (p (f x)); cbn [length]; rewrite IH; reflexivity.
+Qed.
